@@ -109,6 +109,9 @@ MUTANTS = [
      ""),
     ('c07-platform-environment-replaces-default-unfixed', 'C07', 'c07', 200, 'python/experiment/model/frontends/flowir.py',
      "            layered = dict(environments.get(env_name) or {})\n", "            layered = {}\n"),
+    ('c02-restarted-repeating-engine-dead-until-its-thread-runs-unfixed', 'C02', 'c02', 2400, 'python/experiment/runtime/engine.py',
+     "            self.lastExecution = True\n\n            try:\n                threading.Thread(target=runRestart).start()",
+     "            try:\n                threading.Thread(target=runRestart).start()"),
     ('c14-instance-description-written-in-place', 'C14', 'c14rt', 192, 'python/experiment/model/conf.py',
      "        temp_file = '%s.%s.tmp' % (instance_file, uuid.uuid4())\n", "        temp_file = instance_file\n"),
     ('c14-status-written-in-place', 'C14', 'c14rt', 192, 'python/experiment/model/data.py',
